@@ -492,6 +492,33 @@ class Esc(object):
         if len(fc) != 1:
             raise AnalysisBroken("anchor escape_xml_comment(const string&, string&) not found")
         g = fc[0]
+        # R-ESC/SIGN: plain `char` is signed on the supported targets; a byte of a UTF-8 sequence is negative.  In the
+        # sanitisers a character is only ever *selected on* (switch / == against a character literal) or copied; any
+        # numeric use of it - a relational comparison, a conversion to an integer that is then formatted or indexed - must
+        # go through unsigned char, or every non-ASCII byte takes the branch meant for control characters
+        # (`*i < 0x20` -> "&#-61;": a document no parser accepts).
+        n_num = 0
+        for h in (f, g):
+            seen = {}
+            for x in h.nodes():
+                operands = []
+                if x["k"] == "BinaryOperator" and x.get("op") in ("<", "<=", ">", ">=", "-", "+", "/", "%", ">>", "<<", "&", "|"):
+                    operands = [c for c in x["c"] if c is not None]
+                elif x["k"] in ("CXXStaticCastExpr", "CStyleCastExpr", "CXXFunctionalCastExpr") and (h.type(x) or {}).get("arith") and \
+                        (h.type(x) or {}).get("c") not in ("char", "unsigned char", "const char", "bool"):
+                    operands = [c for c in x.get("c", []) if c is not None]
+                for o in operands:
+                    o0 = strip_casts(o)
+                    t = (h.type(o0) or {}).get("c", "") if o0 is not None else ""
+                    if t.replace("const ", "").strip() == "char" and o0["k"] != "CharacterLiteral":
+                        n_num += 1
+                        ent = "%s: `%s` uses a character numerically through unsigned char" % (h.n, expr_str(h, x)[:40])
+                        seen[ent] = seen.get(ent, 0) + 1
+                        ctx.ob("R-ESC/SIGN", ent + ("" if seen[ent] == 1 else " #%d" % seen[ent]), False, h.loc(x),
+                               "`%s` is a plain (signed) char: bytes >= 0x80 are negative, so every byte of a UTF-8 sequence "
+                               "compares below any small constant and formats as a negative number" % expr_str(h, o0)[:40])
+        ctx.note("R-ESC/SIGN: %d numeric use(s) of a plain char in the XML sanitisers (0 expected today; the seeded variant "
+                 "C04-control-characters-as-signed-references is the positive example of the thorough tier)" % n_num)
         ctx.analysed(g)
         dash = any(n["k"] == "CaseStmt" and n.get("v") == ord("-") for n in g.nodes())
         ctx.ob("R-ESC/TABLE", "escape_xml_comment handles '-'", dash, g.loc(),
